@@ -17,7 +17,9 @@ TEMPLATES = [
 ]
 PIECES = ["<table>", "</table>", "<tr>", "<td>", "<b>", "</b>", "<i>", "</i>", "<a>", "</a>", "<p>", "</p>", "<div>",
           "</div>", "x", "y ", " ", "<!--c-->", "<caption>", "<select>", "<svg>", "<nobr>", "<font>", "</font>",
-          "<em>", "</em>", "<tbody>", "<col>", "<form>", "<input>", "<li>", "<button>", "</button>"]
+          "<em>", "</em>", "<tbody>", "<col>", "<form>", "<input>", "<li>", "<button>", "</button>",
+          "<svg xmlns='http://www.w3.org/2000/svg' xmlns:xlink='http://www.w3.org/1999/xlink'>", "<g xlink:href=#a xml:lang=en>",
+          "<math xmlns='http://www.w3.org/1998/Math/MathML'>", "<a id=x class=y>", "<p title='t' lang=en>", "</svg>", "</math>"]
 
 
 def gen_ops(rng, backend):
@@ -229,13 +231,14 @@ def parse_all(src, frag, container="div"):
     import html5lib
     from html5lib import treebuilders
     res = {}
-    for name, tb, kw in (("etree", "etree", {}), ("etree-full", "etree", {"fullTree": True}), ("dom", "dom", {})):
+    for name, tb, kw in (("etree", "etree", {}), ("etree-full", "etree", {"fullTree": True}),
+                         ("etree-root", "etree", {"fullTree": False}), ("dom", "dom", {})):
         for nsflag in (True, False):
             p = html5lib.HTMLParser(tree=treebuilders.getTreeBuilder(tb, **kw), namespaceHTMLElements=nsflag)
             doc = p.parseFragment(src, container=container) if frag else p.parse(src)
             if tb == "dom":
                 f = trees.dom_forest(doc)
-            elif frag or kw:
+            elif frag or kw.get("fullTree"):
                 f = trees.et_forest(doc if hasattr(doc, "tag") else doc.getroot())
             else:
                 f = [trees.et_node(doc)]
@@ -270,6 +273,8 @@ class C04(Plugin):
 
     def corpus(self):
         out = [{"k": 2, "src": t, "frag": f} for t in TEMPLATES for f in (False, True)]
+        import gen_markup
+        out += [{"k": 2, "src": m, "frag": i % 3 == 0} for i, m in enumerate(gen_markup.foreign_attrs_directed())]
         out.append({"k": 0, "ops": [[0, [3]], [0, [0, [HTML], "a", []]], [0, [0, [HTML], "t", []]], [0, [0, [HTML], "i", []]],
                                     [1, 0, 1], [1, 1, 2], [2, 1, 3, 2], [0, [3]], [5, 1, 4]], "root": 4})
         return out
@@ -307,7 +312,7 @@ class C04(Plugin):
         diffs = []
         for (name, nsflag), f in sorted(res.items()):
             want = ref if nsflag else strip_html_ns(ref)
-            if name == "etree" and not case["frag"]:
+            if name in ("etree", "etree-root") and not case["frag"]:
                 # root-element form: only the html subtree
                 want = [n for n in want if n[0] == "E"][:1]
             if f != want:
@@ -321,6 +326,35 @@ class C04(Plugin):
         if case["k"] == 2 and out[1]:
             v.append(("builders-disagree", repr((case["src"], case["frag"], out[1]))))
         return v
+
+    def classify(self, cls, case, detail):
+        if cls == "builders-disagree" and self._minidom_collision(case):
+            return "C04-minidom-attribute-collision"
+        return None
+
+    @staticmethod
+    def _minidom_collision(case):
+        """does some element (as the etree builder sees it) carry two attributes WITHOUT namespace whose names
+        coincide after the first colon?  (minidom keys those by local name)"""
+        import html5lib
+        p = html5lib.HTMLParser(tree=html5lib.getTreeBuilder("etree", fullTree=True))
+        doc = p.parseFragment(case["src"]) if case["frag"] else p.parse(case["src"])
+        root = doc if hasattr(doc, "iter") else doc.getroot()
+        for el in root.iter():
+            if not isinstance(el.tag, str):
+                continue
+            seen = set()
+            for k in el.attrib:
+                if k.startswith("{"):
+                    continue
+                loc = k.split(":", 1)[1] if ":" in k else k
+                if loc in seen:
+                    return True
+                seen.add(loc)
+        return False
+
+    def known_witnesses(self):
+        return {"C04-minidom-attribute-collision": {"k": 2, "src": "<svg xmlns:foo=bar xlink:foo=x>x", "frag": False}}
 
     def nontrivial_key(self, case, out):
         return repr(sorted(case.items(), key=str))
